@@ -305,6 +305,9 @@ def run_graph(case, xp):
         except Exception as e:
             a.update(raised=True, exc=type(e).__name__)
         a["delta"] = len(xp.scheduler.jobs) - before
+        # what the call left on its object: a job (the "was submitted" flag), its init tasks
+        a["job"] = root.__xpm__.job is not None
+        a["init"] = [objs.ids.get(id(t), -1) for t in root.__xpm__.init_tasks]
         a["registered"] = bool(op["op"] != "set" and root.__xpm__.job is not None
                                and any(j is root.__xpm__.job for j in xp.scheduler.jobs.values()))
         answers.append(a)
